@@ -66,7 +66,9 @@ impl BumpAllocator {
 
     /// Allocate a slice of objects of type T
     pub fn alloc_slice<T>(&self, count: usize) -> Result<NonNull<[T]>> {
-        let size = std::mem::size_of::<T>() * count;
+        let size = std::mem::size_of::<T>()
+            .checked_mul(count)
+            .ok_or_else(|| ZiporaError::out_of_memory(usize::MAX))?;
         let align = std::mem::align_of::<T>();
         let ptr = self.alloc_bytes(size, align)?;
 
@@ -95,13 +97,11 @@ impl BumpAllocator {
         loop {
             let current = self.current.load(Ordering::Acquire);
 
-            // Calculate aligned offset
-            let aligned_offset = (current + align - 1) & !(align - 1);
-            let new_offset = aligned_offset + size;
-
-            if new_offset > self.capacity {
-                return Err(ZiporaError::out_of_memory(size));
-            }
+            // Calculate aligned offset; a range that overflows or exceeds the
+            // capacity cannot be served
+            let (aligned_offset, new_offset) = self
+                .bump_range(current, size, align)
+                .ok_or_else(|| ZiporaError::out_of_memory(size))?;
 
             // Try to atomically update the current offset
             match self.current.compare_exchange_weak(
@@ -162,8 +162,19 @@ impl BumpAllocator {
     /// may allocate between this check and the actual allocation.
     pub fn can_allocate(&self, size: usize, align: usize) -> bool {
         let current = self.current.load(Ordering::Relaxed);
-        let aligned_offset = (current + align - 1) & !(align - 1);
-        aligned_offset + size <= self.capacity
+        align.is_power_of_two() && self.bump_range(current, size, align).is_some()
+    }
+
+    /// Compute `(aligned_offset, end_offset)` of an allocation of `size` bytes placed
+    /// at the first `align`-aligned offset at or after `current`.
+    ///
+    /// Returns `None` if the arithmetic overflows or the range does not fit into the
+    /// capacity. `align` must be a power of two.
+    #[inline]
+    fn bump_range(&self, current: usize, size: usize, align: usize) -> Option<(usize, usize)> {
+        let aligned_offset = current.checked_add(align - 1)? & !(align - 1);
+        let end_offset = aligned_offset.checked_add(size)?;
+        (end_offset <= self.capacity).then_some((aligned_offset, end_offset))
     }
 }
 
